@@ -143,6 +143,17 @@ def cases(tier, seed):
     add("dflt_generic_fields", D, Attr(["d ", P("_0")]),
         [Variant("First", [Field(ty="A")], attr=Attr(["first ", P("_0", "o")])), Variant("Second", [Field(ty="B")]),
          Variant("Both", [Field(ty="B"), Field(ty="A")])], generics=GEN, full=True)
+    # ---- `_variant` reached as an implicit `{}` AFTER a `.*` placeholder with an explicit argument (the `*` takes positional 0; seed C07 r5_1)
+    add("wrap_after_star_named_field", D, Attr([P("_0", prec="*"), "|", P()], ["1", "_variant"]), pool_tuple(False))
+    add("wrap_after_star_named_field_n", D, Attr([P("x", "e", prec="*"), "<", P(), ">"], ["2", "_variant"]), pool_named(False))
+    # ---- a placeholder with a spec, no type letter and whitespace before `}` next to `_variant` (seed C07 r5_3: the literal stopped parsing)
+    add("wrap_ws_after_spec_field", D, Attr([P("_variant"), "|", P("_0", align=">", width=3, ws=" ")]), pool_tuple(False))
+    add("wrap_ws_after_spec_arg", D, Attr([P("_0", width=5, ws="  "), " ", P(None, ws=" ")], ["_variant"]), pool_tuple(False))
+    # ---- generic enum, the shared format prints a generic field under ANOTHER trait than the variant's own attribute: both bounds are
+    #      needed (seed C07 r5_2: the second one was dropped => `/expansion`)
+    add("wrap_generic_two_traits_same_field", D, Attr([P("_variant"), " (raw: ", P("_0", "?"), ")"]),
+        [Variant("A", [Field(ty="A")], attr=Attr(["A=", P("_0")])), Variant("Bv", [Field(ty="B")], attr=Attr(["b ", P("_0", "x")])),
+         Variant("C", [Field(ty="B")])], generics=("<A, B>", "<Probe, Probe>"), full=True)
     # ---- default: SHARED does not mention `_variant`
     add("dflt_text", D, Attr(["shared text"]), pool_mixed("", True) + [Variant("M2", T2)], full=True)
     add("dflt_field_text", D, Attr(["sh ", P("_0")]), pool_tuple(True))
